@@ -262,7 +262,7 @@ TIE2.update({
             'StdInOut, the Pdb construction in factory.py and the peek_textio wrapper (Gen/DebuggerStream.v); Stdout/DebugTie.v proves over a two-sink model, for '
             'every interleaving of script writes and debugger writes: erasing the debugger writes leaves the reported sequence unchanged '
             '(C13_debugger_text_never_reported), the real stdout gets exactly the script writes (C13_real_stdout_gets_everything), the prompt text is exactly what '
-            'that trace\'s debugger wrote since its last readline.  A registrar-level oracle judges what subscribers of stdout receive.',
+            'that trace\'s debugger wrote since its last readline.  A registrar-level oracle judges what subscribers of stdout receive.'
             ' The assumption "pdb writes everything to the stream it was constructed with" is a VISIBLE hypothesis of these theorems (no_sys_write, no_swap on the label list): '
             'it is false of CPython\'s pdb for `help pdb`, `interact` and statement commands (Pdb.default swaps sys.stdout process-wide) -- modelled by the labels LDbgSysWrite / LSwapOn / '
             'LSwapOff, witnessed by C13_debugger_text_never_reported_refuted_help_pdb and C13_real_stdout_refuted_bang_statement_other_thread, reproduced on the real code on every run and '
